@@ -63,3 +63,37 @@ fn try_stream_driver_poll_step() {
     assert!(l.n == n);
   }
 }
+
+// a try-stream that is ready with `len` consecutive Ok items (value = index) and then ends
+struct OkBurst { len: u8, pos: u8 }
+impl Stream for OkBurst {
+  type Item = Result<u8, u8>;
+  fn poll_next(mut self: Pin<&mut Self>, _: &mut Context<'_>) -> Poll<Option<Result<u8, u8>>> {
+    if self.pos < self.len { let v = self.pos; self.pos += 1; Poll::Ready(Some(Ok(v))) } else { Poll::Ready(None) }
+  }
+}
+struct Counter { n: std::rc::Rc<std::cell::Cell<u16>>, in_order: std::rc::Rc<std::cell::Cell<bool>>, done: std::rc::Rc<std::cell::Cell<u8>> }
+impl Observer<u8, u8> for Counter {
+  fn next(&mut self, v: u8) { if v as u16 != self.n.get() { self.in_order.set(false); } self.n.set(self.n.get() + 1); }
+  fn error(self, _: u8) { self.in_order.set(false); }
+  fn complete(self) { self.done.set(self.done.get() + 1); }
+  fn is_finished(&self) -> bool { false }
+}
+
+// [C08] a long burst of ready Ok items (up to 40) is relayed completely, in order, in one poll; the
+// driver then completes the observer and resolves
+//@ bounded: a burst of at most 40 ready items
+#[kani::proof]
+#[kani::unwind(43)]
+fn try_stream_driver_relays_a_long_ready_burst_completely() {
+  let len: u8 = kani::any();
+  kani::assume(len <= 40);
+  let n = std::rc::Rc::new(std::cell::Cell::new(0u16));
+  let ok = std::rc::Rc::new(std::cell::Cell::new(true));
+  let done = std::rc::Rc::new(std::cell::Cell::new(0u8));
+  let mut fut = TryStreamObserverFuture { stream: OkBurst { len, pos: 0 }, observer: Some(Counter { n: n.clone(), in_order: ok.clone(), done: done.clone() }) };
+  let mut cx = Context::from_waker(futures::task::noop_waker_ref());
+  let r = Pin::new(&mut fut).poll(&mut cx);
+  assert!(r.is_ready());
+  assert!(n.get() == len as u16 && ok.get() && done.get() == 1);
+}
